@@ -11,7 +11,7 @@ from gcv import (ToolError, WORK, SPEC, ROOT, log, memo, run_tlc, cfg_text, tla_
 # ============================================================================= core engine
 # GcHeap.tla / MC_GcHeap.tla  ->  behaviours  ->  harness replay  ->  GcMonitor trace validation
 
-CORE_PROPS = ["C01", "C02", "C03", "C04", "C05", "C06", "C07", "C08"]
+CORE_PROPS = ["C01", "C02", "C03", "C04", "C05", "C06", "C07", "C08", "C11"]
 
 # rules whose antecedent must have been true at least once for the run to count (vacuity control)
 MUST_HIT = {
@@ -23,6 +23,7 @@ MUST_HIT = {
     "C06": ["C06.r1", "C01.r1", "C01.r3"],
     "C07": ["C07.r1", "C07.r2", "C07.r3"],
     "C08": ["C08.r1", "C08.r2", "C08.r3"],
+    "C11": ["C11.r1", "C01.r1", "C02.r1", "C04.r4"],
 }
 
 # which monitor rules decide which property (a rule named Cxx.* always decides Cxx)
@@ -39,6 +40,7 @@ MODEL_INVS = {
     "C06": ["Structural", "C01_NoLostReachable", "C05_WeakBlock", "C06_BookkeepingOnly"],
     "C07": ["Structural", "C07_NoDeadReachable", "C07_DeadExact", "C07_ResurrectHolds"],
     "C08": ["Structural", "C08_PhaseProtocol"],
+    "C11": ["Structural", "PropertyInvs (all of C01-C07, over the fault-extended Next)"],
 }
 
 ALL_INVS = ["Structural", "PropertyInvs"]
@@ -47,7 +49,7 @@ ALL_PROPS = ["C03_MutatorFrame", "C06_BookkeepingOnly", "C08_PhaseProtocol"]
 
 def heap_constants(n_obj, kinds=("N",), budgets=(1, 2), grans=("P1", "P2"), max_ops=0, emit="none",
                    vias=("mutate_root",), max_kids=2, max_weak=1, barrier_only=False, finalize=True, drop=True,
-                   many=False):
+                   many=False, fault_ats=()):
     objs = ", ".join(f"o{i + 1}" for i in range(n_obj))
     return {
         "Obj": "{" + objs + "}", "NoObj": "NoObj", "MaxKids": max_kids, "MaxWeak": max_weak,
@@ -55,6 +57,7 @@ def heap_constants(n_obj, kinds=("N",), budgets=(1, 2), grans=("P1", "P2"), max_
         "MaxOps": max_ops, "Emit": f'"{emit}"', "RootViaSet": tla_set(vias),
         "WithBarrierOnly": "TRUE" if barrier_only else "FALSE", "WithFinalize": "TRUE" if finalize else "FALSE",
         "WithDrop": "TRUE" if drop else "FALSE", "WithMany": "TRUE" if many else "FALSE",
+        "FaultAts": tla_set(fault_ats, quote=False),
     }
 
 
@@ -98,10 +101,14 @@ def core_models(tier, d):
         ("n2_kinds", heap_constants(2, kinds=ALLK, max_ops=5 if tier == "quick" else 7, emit="classes",
                                     barrier_only=True, vias=VIAS), "classes", 2, 3000),
     ]
+    # (3) fault injection (C11): trace panics at the k-th trace call after j children, panicking
+    #     callbacks, failing constructors and root maps
+    jobs.append(("n2_faults", heap_constants(2, emit="classes", fault_ats=(0, 1), vias=VIAS,
+                                             max_ops=6 if tier == "quick" else 8), "classes", 2, 3000))
     if tier == "thorough":
-        # (3) N2 complete: one behaviour per distinct state (state cover)
+        # (4) N2 complete: one behaviour per distinct state (state cover)
         jobs.append(("n2_states", heap_constants(2, emit="states"), "states", None, 3000))
-        # (4) N3, every behaviour of at most 6 operations, class witnesses
+        # (5) N3, every behaviour of at most 6 operations, class witnesses
         jobs.append(("n3_k6", heap_constants(3, emit="classes", max_ops=6, many=True), "classes", 3, 3600))
     par = 2
     workers = max(3, (NCPU - 2) // par)
@@ -217,6 +224,10 @@ def check_core(prop, tier):
         raise ToolError(f"harness crashed while replaying: {m['crashes'][:1]}")
     decides = [prop] + ALSO.get(prop, [])
     viols = [v for v in m["viol"] if v["prop"] in decides]
+    if prop == "C11":
+        # "after the unwind is caught the arena continues to satisfy C01-C05": the same rules, on
+        # the executions that contain injected faults
+        viols += [v for v in m["viol"] if v["prop"] in ("C01", "C02", "C03", "C04", "C05") and v["source"] == "n2_faults"]
     tool = [v for v in m["viol"] if v["prop"] == "TOOL"]
     if tool:
         raise ToolError(f"monitor could not interpret the trace: {tool[:2]}")
